@@ -7,7 +7,7 @@ from vlib import boot, hyp, pg
 
 
 def run(spec, col, judge, n_seed, n_tape, budget_seed=20000, budget_tape=4000, shrink=True,
-        seed_limits=None, prepare=None):
+        seed_limits=None, prepare=None, n_hand=0):
     """judge(case) -> (viols [(signature, detail)], nontrivial, sample_fn, text_key)
     Runs n_seed seed-mode and n_tape tape-mode cases of spec['lang'].  Unlisted
     signatures first seen in tape mode are shrunk once (bounded)."""
@@ -41,6 +41,24 @@ def run(spec, col, judge, n_seed, n_tape, budget_seed=20000, budget_tape=4000, s
     if n_seed:
         hyp.explore(st.tuples(st.integers(0, 2 ** 31 - 1), seed_limits or pg.config_strategy()), seed_case, n_seed,
                     col.shard_seed('seed'))
+    if n_hand:
+        # hand-shaped programs (vlib/handprog.py): shapes the generator produces rarely; only for properties that speak
+        # about *any* program (translation, persistence), never for properties of the generator itself
+        def hand(data):
+            case = pg.hand_case(lang, draw=data.draw)
+            for sig, detail in account_hand(case):
+                pass
+
+        def account_hand(case):
+            viols, nontriv, sample, key = judge(case)
+            col.case(key=('hand', key), nontrivial=nontriv, sample=lambda: {'lang': lang, 'handmade_units': case.labels})
+            col.feature('programs_handmade')
+            for lab in case.labels:
+                col.feature('handmade_unit:' + lab.split('/')[0])
+            for sig, detail in viols:
+                col.violation(sig + '/handmade', dict(detail, units=case.labels), case.key(), size=len(case.tape))
+            return viols
+        hyp.explore(st.data(), hand, n_hand, col.shard_seed('hand'))
     tape_strategy = st.tuples(st.data(), pg.config_strategy(small=True))
     tape_sigs = {}
 
